@@ -941,6 +941,48 @@ def rule_queue_internals(ctx, rid, r):
 
 
 # ------------------------------------------------------------------------------------------------ C04.D2
+
+def sentinel_branches(m, lp, g, r, item):
+    """CFG entry nodes of the branch taken when the dequeued item IS the sentinel / is not, for the identity test in
+    the worker loop.  -> (test statement, [sentinel-branch nodes], [other-branch nodes]) or (None, [], [])"""
+    tests = []
+    for n in lp.own_nodes():
+        if isinstance(n, ast.If):
+            t, pol = _positive(n.test, True)
+            if isinstance(t, ast.Compare) and len(t.ops) == 1 and isinstance(t.ops[0], ast.Is) and item is not None \
+                    and {norm(t.left), norm(t.comparators[0])} == {item, r.sentinel}:
+                tests.append((n, pol))
+    if not tests:
+        # the test may be kept in a flag: `released = item is DONE` ... `if not released:` / `while not released`
+        flagged = []
+        for n in lp.own_nodes():
+            if isinstance(n, ast.Assign) and len(n.targets) == 1 and isinstance(n.targets[0], ast.Name):
+                t, pol = _positive(n.value, True)
+                if isinstance(t, ast.Compare) and len(t.ops) == 1 and isinstance(t.ops[0], ast.Is) and item is not None \
+                        and {norm(t.left), norm(t.comparators[0])} == {item, r.sentinel} and n.targets[0].id in getattr(g, "flags_refined", ()):
+                    flagged.append((n, pol))
+        if len(flagged) != 1:
+            return None, [], []
+        n, pol = flagged[0]
+        fl = n.targets[0].id
+        s_nodes, o_nodes = [], []
+        for an in g.of(n):
+            for b, lab in g.succ[an]:
+                if lab == "n" and b.val is not None:
+                    (s_nodes if b.val.get(fl) == pol else o_nodes).append(b)
+        return n, s_nodes, o_nodes
+    if len(tests) != 1:
+        return None, [], []
+    n, pol = tests[0]
+    s_nodes, o_nodes = [], []
+    for tn in g.of(n):
+        for b, lab in g.succ[tn]:
+            if lab == ("t" if pol else "f"):
+                s_nodes.append(b)
+            elif lab == ("f" if pol else "t"):
+                o_nodes.append(b)
+    return n, s_nodes, o_nodes
+
 def rule_one_callback_per_dequeue(ctx, rid, r):
     m = ctx.model
     lp = r.loop
@@ -967,13 +1009,14 @@ def rule_one_callback_per_dequeue(ctx, rid, r):
     ok = item is not None and len(call.args) == 1 and is_name(call.args[0], item)
     ctx.ob(rid, f"{lp.short}/callback-gets-item", ok, loc(lp, call), "callback receives the dequeued item" if ok else
            "callback argument is not the dequeued item", norm(call))
-    # sentinel path does not call the callback: the `is DONE` test returns before
+    # sentinel path does not call the callback: from the branch taken for the sentinel the callback is unreachable
+    # (until the next dequeue), and the callback is only reached through that identity test
     g = CFG(lp, may_raise=any_call_may_raise)
     cn = g.of(stmt_of(mod, call))
-    tests = [n for n in lp.own_nodes() if isinstance(n, ast.If) and isinstance(n.test, ast.Compare)
-             and isinstance(n.test.ops[0], ast.Is) and item in names_in(n.test)]
-    ok = len(tests) == 1 and any(isinstance(s, ast.Return) for s in tests[0].body) and all(
-        g.dominates(set(g.of(tests[0])), c) for c in cn)
+    gnodes = {x for c_ in gets for x in g.of(stmt_of(mod, c_))}
+    tst, s_nodes, o_nodes = sentinel_branches(m, lp, g, r, item)
+    ok = tst is not None and bool(s_nodes) and all(g.dominates(set(g.of(tst)), c) for c in cn) \
+        and not ((set(s_nodes) | g.reach(s_nodes, avoid=gnodes)) & set(cn))
     ctx.ob(rid, f"{lp.short}/sentinel-skips-callback", ok, loc(lp), "identity test against the sentinel returns before the callback"
            if ok else "the sentinel can reach the node callback or is not compared by identity")
     # handlers in the loop must not re-run the callback
@@ -1179,17 +1222,19 @@ def rule_sentinels(ctx, rid, r):
     ok2 = inside(e.module, stmt_of(e.module, r.join_call), r.pool_with)
     ctx.ob(rid, f"{e.short}/join-inside-pool", ok2, loc(e, r.join_call), "queue.join() runs inside the pool context" if ok2 else
            "queue.join() is outside the pool context", norm(r.join_call))
-    # worker loop exits only through the sentinel branch
+    # worker loop exits only through the sentinel branch, and exits then (path formulation: robust to `return` vs flag)
     g = CFG(lp, may_raise=lambda n: False)
-    rets = [n for n in lp.own_nodes() if isinstance(n, ast.Return)]
-    whiles = [n for n in lp.own_nodes() if isinstance(n, ast.While)]
-    ok = len(whiles) == 1 and isinstance(whiles[0].test, ast.Constant) and whiles[0].test.value is True and \
-        not any(isinstance(n, ast.Break) for n in lp.own_nodes())
-    for rt in rets:
-        conds = path_condition(lp.module, rt, lp.node)
-        ok = ok and any(isinstance(t, ast.Compare) and isinstance(t.ops[0], ast.Is) and norm(t.comparators[0]) == r.sentinel and pol
-                        for t, pol in conds)
-    ok = ok and bool(rets)
+    gets = [c for c in lp.own_calls() if ext_names(m, lp, c) & GET]
+    gs = stmt_of(lp.module, gets[0]) if len(gets) == 1 else None
+    item = gs.targets[0].id if isinstance(gs, ast.Assign) and isinstance(gs.targets[0], ast.Name) else None
+    tst, s_nodes, o_nodes = sentinel_branches(m, lp, g, r, item)
+    ok = tst is not None and bool(s_nodes)
+    if ok:
+        gnodes = set(g.of(gs))
+        all_reach = g.reach([g.entry])
+        ok = g.exit in all_reach and g.exit not in g.reach([g.entry], avoid=set(s_nodes)) \
+            and not ((set(s_nodes) | g.reach(s_nodes)) & gnodes) \
+            and bool((set(o_nodes) | g.reach(o_nodes)) & gnodes)
     ctx.ob(rid, f"{lp.short}/exit-only-on-sentinel", ok, loc(lp), "worker loop is `while True` and returns only on `item is <sentinel>`"
            if ok else "worker loop can exit without a sentinel (items left unprocessed) or never exits")
     # the sentinel is a module-level unique object
